@@ -123,4 +123,8 @@ Lemma sort_desc_is_reverse_of_sort l sep :
   /\ spec_step E (Sort Asc) (VList l) sep = Ok (VList (sort_asc l), sep).
 Proof. cbn [spec_step list_only]. rewrite frev_rev. split; reflexivity. Qed.
 
+Lemma strip_ansi_step (f : str -> str) : (forall s, strip_ansi E s = f s) ->
+  forall v sep, spec_step E StripAnsi v sep = match v with VStr s => Ok (VStr (f s), sep) | VList _ => Err end.
+Proof. intros H v sep. cbn [spec_step]. unfold str_only. destruct v; [rewrite H|]; reflexivity. Qed.
+
 End M.
